@@ -406,7 +406,45 @@ band = st.one_of(
     st.integers(0, 164).map(lambda a: (10 * a, 10 * a + 10)),
 )
 
+def _band_sweep_cases(tier):
+    for k0 in range(0, 320, 40):
+        for bands in ([[30, 300], [30, 80]], [[30, 80], [200, 1200]]):
+            yield {"k0": k0, "k1": k0 + 40, "bands": bands}
+
+
+def body_band_sweep(case):
+    """Two EASRadio objects tuned to DIFFERENT bands evaluate overlapping calls at EVERY pre-emption point of the chunk
+    (nested schedule): each returns the field array of its own band - shape and values."""
+    from nuspacesim.simulation.eas_radio.radio import EASRadio
+
+    from ..interleave import sweep_overlapping
+
+    base = {"det": 525.0, "nants": 10, "gain": 1.8, "iono": False, "tec": 10.0, "tec_err": 0.1}
+    n = 3
+    beta = np.array([0.3, 0.1, 0.5])
+    length = np.array([5.0, 20.0, 2.0])
+    alt = np.sqrt(RE * RE + length**2 + 2 * RE * length * np.sin(beta)) - RE
+    theta, L, E = np.array([0.02, 0.01, 0.03]), np.array([700.0, 900.0, 600.0]), np.array([1.0, 10.0, 0.1])
+    ra_, rb_ = EASRadio(_config(dict(base, band=case["bands"][0]))), EASRadio(_config(dict(base, band=case["bands"][1])))
+
+    def field(obj):
+        with scripted(np.full(n * 400 + 16, 0.37)), quiet():
+            return np.asarray(obj(beta, alt, length, theta, L, E), dtype=np.float64)
+
+    hits = sweep_overlapping(lambda: field(ra_), lambda: field(rb_), case["k0"], case["k1"], f"EASRadio calls of two objects tuned to {case['bands'][0]} and {case['bands'][1]} MHz", as_bytes=lambda r: [str(np.asarray(r).shape).encode(), np.ascontiguousarray(r).tobytes()])
+    return {"bands"} | ({"preempted"} if hits else set())
+
+
 SUBCHECKS = [
+    SubCheck(
+        "band_overlap_sweep",
+        None,
+        body_band_sweep,
+        lambda labels: "preempted" in labels,
+        {"quick": 1},
+        doc="two EASRadio objects tuned to different bands, overlapping calls at every pre-emption point (0..319 package lines, nested schedule): shape and values of each call as on its own",
+        exhaustive=_band_sweep_cases,
+    ),
     SubCheck(
         "chain",
         st.fixed_dictionaries(
